@@ -356,8 +356,9 @@ func (f *Frame) applyContract(fc *FuncContract, name string, fn *ssa.Function, s
 			if lbl == "" {
 				lbl = fmt.Sprint(k + 1)
 			}
-			g := env.evalBool(cl.Expr)
-			e.oblige("pre", short+"."+lbl, f.pc, g, fmt.Sprintf("precondition of %s: %s", name, cl.Src), pos, nil)
+			for _, g := range env.evalSplit(cl.Expr) {
+				e.oblige("pre", short+"."+lbl, f.pc, g, fmt.Sprintf("precondition of %s: %s", name, cl.Src), pos, nil)
+			}
 		}
 	}
 	// frame
